@@ -32,9 +32,9 @@ Definition is_bad (e : event) : bool := match e with EvBad _ => true | _ => fals
 Definition recognised (m c v : Z) : bool :=
   existsb (fun '(p, j) => negb (is_bad (decode_all all_models cs_cat m c v p j 7))) probe_payloads.
 
-(* legacy codes: accepted with a warning, not listed *)
-Definition legacy (m c v : Z) : bool :=
-  ((m =? M_OVNI) && (c =? 67) && (v =? 110)) || ((m =? M_NANOS6) && (c =? 84) && (v =? 67)).
+(* legacy code: the old Nanos6 task-create event 6TC is accepted with a warning and not listed
+   (the other legacy event, OCn, is listed) *)
+Definition legacy (m c v : Z) : bool := (m =? M_NANOS6) && (c =? 84) && (v =? 67).
 
 (* the codes a handler can let through, read off the dispatch code: hand-written switches of the base, kernel
    and task handlers, plus the rows of the dumped tables *)
@@ -65,6 +65,7 @@ Definition catalogue_diff : list (Z * Z * Z * bool * bool) :=
   flat_map (fun m => flat_map (fun c => flat_map (fun v =>
     let l := listed m c v in let r := recognised m c v in
     if value_blind m c then (if r then [] else [(m, c, v, l, r)])
+    else if legacy m c v then (if r && negb l then [] else [(m, c, v, l, r)])
     else if Bool.eqb l r then [] else [(m, c, v, l, r)]) printable) printable) model_ids.
 
 (* in the value-blind categories every value is recognised and at least one is listed *)
